@@ -25,6 +25,16 @@ Weight(i) == out.op = "init" /\ a.rat /\
    Emit("weight", [a EXCEPT !.P[i] = VScale(RDiv(w2, w), @)])
 Knot(d, j) == out.op = "init" /\ RLt(RAdd(a.kv[d][j], Eps), a.kv[d][j + 1]) /\
    Emit("knot", [a EXCEPT !.kv[d][j] = RAdd(@, Eps)])
+\* the whole knot vector of one direction stretched by 2 (kept in that range: normalize_kv = False)
+Stretch(d) == out.op = "init" /\ Emit("kv_stretch", [a EXCEPT !.kv[d] = AffineKV(@, RI(2), Zero)])
+\* user-selected comparison precision of 3 decimals: a change of 2/1000 is above the tolerance, 1/10000 below it
+\* (absolute tolerance: it does not grow with the magnitude of the coordinate)
+EqTol(A, B, tol) == PDim(A) = PDim(B) /\ A.rat = B.rat /\ A.deg = B.deg /\ A.size = B.size
+   /\ (\A e \in 1..PDim(A) : \A x \in 1..Len(A.kv[e]) : RLt(RAbs(RSub(A.kv[e][x], B.kv[e][x])), tol))
+   /\ (\A x \in 1..Len(A.P) : \A y \in 1..CDim(A) : RLt(RAbs(RSub(A.P[x][y], B.P[x][y])), tol))
+Prec(i, k, delta) == out.op = "init" /\
+   LET B == [a EXCEPT !.P[i][k] = RAdd(@, delta)] IN
+   out' = [op |-> "pair", kind |-> "precision3", B |-> B, eq |-> EqTol(a, B, R(1, 1000)), precision |-> 3] /\ UNCHANGED a
 \* same sizes, degree + 1 in one direction (knot vector gets one more end knot)
 Degree(d) == out.op = "init" /\ a.size[d] >= a.deg[d] + 2 /\
    Emit("degree", [a EXCEPT !.deg[d] = @ + 1, !.kv[d] = <<Zero>> \o @])
@@ -40,9 +50,12 @@ Next == \/ Same \/ RatTwin \/ KindTwin
         \/ \E i \in 1..Len(a.P) : Weight(i)
         \/ \E d \in 1..PDim(a) : \E j \in (a.deg[d] + 2)..(Len(a.kv[d]) - a.deg[d] - 1) : Knot(d, j)
         \/ \E d \in 1..PDim(a) : Degree(d)
+        \/ \E d \in 1..PDim(a) : Stretch(d)
+        \/ PDim(a) <= 2 /\ \E i \in 1..Len(a.P) : \E k \in 1..CDim(a) : \E dl \in {R(2, 1000), R(1, 10000)} : Prec(i, k, dl)
 Spec == Init /\ [][Next]_vars
 \* every perturbed or twin shape differs from A; only the identical one is equal (reflexivity)
-T_Tracks == out.op = "pair" => (out.eq <=> out.kind = "same")
+T_Tracks == out.op = "pair" /\ out.kind # "precision3" => (out.eq <=> out.kind = "same")
+T_Precision == out.op = "pair" /\ out.kind = "precision3" => (out.eq <=> EqTol(out.B, a, R(1, 1000)))
 T_Symmetric == out.op = "pair" => (EqDef(a, out.B) <=> EqDef(out.B, a))
 EmitC == out.op # "init" => PrintT("CASE " \o ToJson([a |-> a, out |-> out]))
 =============================================================================
